@@ -283,8 +283,12 @@ int sqfs_data_reader_get_fragment(sqfs_data_reader_t *data,
 	if (err)
 		return err;
 
-	if (frag_off + frag_sz > data->block_size)
+	/* must lie inside the fragment block that was actually loaded,
+	   the sum of the two 32 bit values may also wrap around */
+	if (frag_off > data->frag_blk_size ||
+	    frag_sz > (data->frag_blk_size - frag_off)) {
 		return SQFS_ERROR_OUT_OF_BOUNDS;
+	}
 
 	*out = alloc_array(1, frag_sz);
 	if (*out == NULL)
@@ -426,6 +430,12 @@ static int dr_stream_get_buffered_data(sqfs_istream_t *base,
 	if (stream->blk_idx < stream->blk_count) {
 		sqfs_u32 blkword = stream->blocks[stream->blk_idx++];
 		sqfs_u32 disksz = SQFS_ON_DISK_BLOCK_SIZE(blkword);
+
+		/* the scratch and block buffers hold one block */
+		if (disksz > rd->block_size) {
+			ret = SQFS_ERROR_OVERFLOW;
+			goto fail;
+		}
 
 		if (disksz == 0) {
 			memset(stream->buffer, 0, stream->buf_used);
